@@ -808,6 +808,11 @@ func writeEnum(w *formatting.IndentedWriter, enum *dsl.EnumDefinition) {
 			common.WriteDocstring(w, value.Comment)
 		}
 
+		if len(enum.Values) == 0 && !enum.IsFlags {
+			// an enum without values still needs a class body
+			w.WriteStringln("pass")
+		}
+
 		if enum.IsFlags {
 			w.WriteStringln("")
 			w.WriteStringln("def __eq__(self, other: object) -> bool:")
